@@ -330,6 +330,8 @@ where
             return Err(FlipError::NonManifoldFacet);
         }
 
+        #[cfg(feature = "verif-hooks")]
+        crate::verif_failpoints::hit::<FlipError>("flip.pre.points")?;
         let points = vertices_to_points(tds, vertices)?;
         let orientation = kernel
             .orientation(&points)
@@ -371,6 +373,8 @@ where
     }
 
     for vertices in new_cell_vertices {
+        #[cfg(feature = "verif-hooks")]
+        crate::verif_failpoints::hit::<FlipError>("flip.cell_new")?;
         let cell = Cell::new(vertices, None)?;
         let cell_key = tds
             .insert_cell_with_mapping(cell)
@@ -380,16 +384,22 @@ where
         new_cells.push(cell_key);
     }
 
+    #[cfg(feature = "verif-hooks")]
+    crate::verif_failpoints::hit::<FlipError>("flip.boundary")?;
     let boundary_facets =
         extract_cavity_boundary(tds, removed_cells).map_err(|e| FlipError::NeighborWiring {
             message: format!("flip boundary extraction failed: {e}"),
         })?;
 
+    #[cfg(feature = "verif-hooks")]
+    crate::verif_failpoints::hit::<FlipError>("flip.external")?;
     let external_facets = external_facets_for_boundary(tds, removed_cells, &boundary_facets)
         .map_err(|e| FlipError::NeighborWiring {
             message: e.to_string(),
         })?;
 
+    #[cfg(feature = "verif-hooks")]
+    crate::verif_failpoints::hit::<FlipError>("flip.wire")?;
     wire_cavity_neighbors(
         tds,
         &new_cells,
@@ -401,6 +411,8 @@ where
     })?;
 
     tds.remove_cells_by_keys(removed_cells);
+    #[cfg(feature = "verif-hooks")]
+    crate::verif_failpoints::hit::<FlipError>("flip.normalize")?;
     tds.normalize_coherent_orientation()
         .map_err(|e| FlipError::TdsMutation {
             message: e.to_string(),
@@ -2357,6 +2369,8 @@ where
         return Err(FlipError::UnsupportedDimension { dimension: D });
     }
 
+    #[cfg(feature = "verif-hooks")]
+    crate::verif_failpoints::hit::<FlipError>("flip.k1inv.context")?;
     let context = build_k1_inverse_context(tds, vertex_key)?;
     let info = apply_bistellar_flip_dynamic(tds, kernel, D + 1, &context)?;
 
@@ -2536,6 +2550,8 @@ where
             ));
         }
 
+        #[cfg(feature = "verif-hooks")]
+        crate::verif_failpoints::hit::<DelaunayRepairError>("repair.enqueue_after_flip_2d")?;
         for &cell_key in &info.new_cells {
             enqueue_cell_facets(
                 tds,
@@ -2591,6 +2607,8 @@ where
         return Err(FlipError::UnsupportedDimension { dimension: D }.into());
     }
 
+    #[cfg(feature = "verif-hooks")]
+    crate::verif_failpoints::hit::<DelaunayRepairError>("repair.entry")?;
     // In debug/test builds (especially for 3D+), prefer a fully-robust predicate pass.
     // This materially improves correctness in near-degenerate configurations.
     let attempt1 = RepairAttemptConfig {
@@ -2907,6 +2925,8 @@ where
     U: DataType,
     V: DataType,
 {
+    #[cfg(feature = "verif-hooks")]
+    crate::verif_failpoints::hit::<DelaunayRepairError>("repair.postcondition")?;
     verify_repair_postcondition_locally(tds, kernel, seed_cells)
 }
 
@@ -4034,6 +4054,8 @@ where
         return Err(non_convergent_error(max_flips, stats, diagnostics, config));
     }
 
+    #[cfg(feature = "verif-hooks")]
+    crate::verif_failpoints::hit::<DelaunayRepairError>("repair.enqueue_after_flip")?;
     enqueue_new_cells_for_repair(tds, &info.new_cells, queues, stats)?;
 
     Ok(true)
@@ -4204,6 +4226,8 @@ where
         return Err(non_convergent_error(max_flips, stats, diagnostics, config));
     }
 
+    #[cfg(feature = "verif-hooks")]
+    crate::verif_failpoints::hit::<DelaunayRepairError>("repair.enqueue_after_flip")?;
     enqueue_new_cells_for_repair(tds, &info.new_cells, queues, stats)?;
 
     Ok(true)
@@ -4369,6 +4393,8 @@ where
         return Err(non_convergent_error(max_flips, stats, diagnostics, config));
     }
 
+    #[cfg(feature = "verif-hooks")]
+    crate::verif_failpoints::hit::<DelaunayRepairError>("repair.enqueue_after_flip")?;
     enqueue_new_cells_for_repair(tds, &info.new_cells, queues, stats)?;
 
     Ok(true)
@@ -4537,6 +4563,8 @@ where
         return Err(non_convergent_error(max_flips, stats, diagnostics, config));
     }
 
+    #[cfg(feature = "verif-hooks")]
+    crate::verif_failpoints::hit::<DelaunayRepairError>("repair.enqueue_after_flip")?;
     enqueue_new_cells_for_repair(tds, &info.new_cells, queues, stats)?;
 
     Ok(true)
